@@ -90,6 +90,9 @@ def _r1(repo, run, vanished):
                 if not fine and isinstance(par, ast.Call) and node in par.args and isinstance(par.func, ast.Name) and par.func.id in m.functions:
                     # handed to a function of the same module that itself touches its parameter only through the per-thread attribute
                     fine = _param_only_via_attribute(m.functions[par.func.id], par.args.index(node), m, 0)
+                if fine and isinstance(par, ast.Attribute) and par.value is node and isinstance(par.ctx, ast.Load) and not _set_in_this_thread(par, m):
+                    run.violation('C20.R1', (m.relpath, node.lineno, slot), norm(par), 'the per-thread attribute %s.%s is read without a default although nothing on the way from the entry of the function has set it: the attributes of a threading.local exist only in the thread that assigned them - the first use in any other thread raises AttributeError (initialising it at import / decoration time only serves the importing thread)' % (slot, par.attr))
+                    continue
                 if fine:
                     continue
                 run.violation('C20.R1', (m.relpath, node.lineno, slot), norm(par)[:120] if par is not None else slot, 'the thread-local object %s itself is rebound / passed around instead of being accessed through its per-thread attribute' % slot)
@@ -210,6 +213,63 @@ def _save_restore(repo, run, fi, slot, what):
         run.ok('C20.R3', fi, '%s: old = slot; slot = new; try: body finally: slot = old' % fi.name)
 
 
+def _set_in_this_thread(load, m):
+    """is the attribute read `<slot>.<attr>` preceded, inside the innermost function that contains it, by something that makes the
+    attribute exist in the current thread on every way there: an assignment to it, an `if not hasattr(<slot>, '<attr>'): <assign>`, a
+    call of a same-module helper that assigns the attribute of the slot it is handed - or is the read itself inside
+    `if hasattr(<slot>, '<attr>')`?  (statements of enclosing functions do not count: they ran at another time, maybe in another thread)"""
+    text = norm(load)
+    slot_text, attr = norm(load.value), load.attr
+
+    def stores(st):
+        return any(isinstance(x, ast.Attribute) and isinstance(x.ctx, ast.Store) and norm(x) == text for x in ast.walk(st))
+
+    def is_hasattr(t):
+        return isinstance(t, ast.Call) and isinstance(t.func, ast.Name) and t.func.id == 'hasattr' and len(t.args) == 2 and norm(t.args[0]) == slot_text \
+            and isinstance(t.args[1], ast.Constant) and t.args[1].value == attr
+
+    def defines(st):
+        if isinstance(st, (ast.Assign, ast.AnnAssign)) and stores(st):
+            return True
+        if isinstance(st, ast.If):
+            t = st.test
+            if isinstance(t, ast.UnaryOp) and isinstance(t.op, ast.Not) and is_hasattr(t.operand) and any(defines(x) for x in st.body):
+                return True
+            if any(defines(x) for x in st.body) and st.orelse and any(defines(x) for x in st.orelse):
+                return True
+        if isinstance(st, ast.Expr) and isinstance(st.value, ast.Call) and isinstance(st.value.func, ast.Name) and st.value.func.id in m.functions:
+            c = st.value
+            for i, a in enumerate(c.args):
+                if norm(a) == slot_text:
+                    g = m.functions[c.func.id]
+                    ps = g.node.args.posonlyargs + g.node.args.args
+                    if i < len(ps) and any(isinstance(x, ast.Attribute) and isinstance(x.ctx, ast.Store) and x.attr == attr and isinstance(x.value, ast.Name) and x.value.id == ps[i].arg for x in ast.walk(g.node)):
+                        return True
+        if isinstance(st, ast.Try) and any(defines(x) for x in st.body) and not st.handlers:
+            return True
+        return False
+    cur = load
+    while True:
+        par = getattr(cur, '_parent', None)
+        if par is None or isinstance(par, (ast.FunctionDef, ast.AsyncFunctionDef, ast.Lambda)) and cur is not load and not isinstance(cur, ast.stmt):
+            break
+        if isinstance(par, ast.If) and cur in par.body and is_hasattr(par.test):
+            return True
+        for field in ('body', 'orelse', 'finalbody'):
+            block = getattr(par, field, None)
+            if isinstance(block, list) and cur in block:
+                if any(defines(x) for x in block[:block.index(cur)]):
+                    return True
+                if field == 'finalbody' and isinstance(par, ast.Try) and False:
+                    return True
+        if isinstance(par, ast.ExceptHandler):
+            pass
+        if isinstance(par, (ast.FunctionDef, ast.AsyncFunctionDef, ast.Lambda)):
+            break
+        cur = par
+    return False
+
+
 def _param_only_via_attribute(g, index, m, depth):
     a = g.node.args
     ps = a.posonlyargs + a.args
@@ -327,6 +387,7 @@ def check(repo, run, tier):
 
 def mutants(repo):
     return [
+        Mutant('thread-local-initialised-at-decoration-time', lambda r: in_func(r, 'errors.api_entry', "if getattr(_api_entered, 'value', False) or", "if _api_entered.value or"), ['C20.R1']),
         Mutant('slot-plain-object', lambda r: in_module(r, 'node', "    _default_safe = threading.local()", "    _default_safe = types.SimpleNamespace()"), ['C20.R1']),
         Mutant('slot-slotted-local-subclass', lambda r: in_module(r, 'node', "class ConfigNode(metaclass=ConfigNodeMeta):\n", "class _ParseDefault(threading.local):\n    __slots__ = ('value',)\n\n\nclass ConfigNode(metaclass=ConfigNodeMeta):\n", 1) and
                {'awesomeyaml/nodes/node.py': in_module(r, 'node', "class ConfigNode(metaclass=ConfigNodeMeta):\n", "class _ParseDefault(threading.local):\n    __slots__ = ('value',)\n\n\nclass ConfigNode(metaclass=ConfigNodeMeta):\n")['awesomeyaml/nodes/node.py'].replace("    _default_filename = threading.local()", "    _default_filename = _ParseDefault()")}, ['C20.R1']),
